@@ -360,6 +360,12 @@ class Interp(ExprMixin):
           (keyed = (field term, target) tells the caller to bind the two names itself)"""
         while isinstance(it, tuple) and len(it) == 4 and it[0] == "call" and it[1] in ("list", "tuple") and len(it[2]) == 1 and not it[3]:
             it = it[2][0]           # iterating over list(X) is iterating over X
+        if isinstance(it, tuple) and len(it) == 4 and it[0] == "call" and it[1] in ("itertools.chain", "chain") and it[2] and not it[3]:
+            # itertools.chain(a, b, ...) walks a + b + ...
+            acc = it[2][0]
+            for part in it[2][1:]:
+                acc = app("+", acc, part)
+            it = acc
         itt = it if isinstance(it, tuple) else None
         if itt is not None and itt[0] == "mcall" and itt[2] == "items" and not itt[3] and isinstance(target, (ast.Tuple, ast.List)) \
                 and len(target.elts) == 2 and isinstance(target.elts[0], ast.Name):
@@ -383,6 +389,17 @@ class Interp(ExprMixin):
     _NO_ITER = object()
 
     def s_For(self, st, it=_NO_ITER):
+        if it is Interp._NO_ITER and isinstance(st.iter, ast.Call) and ast.unparse(st.iter.func) in ("itertools.product", "product") \
+                and len(st.iter.args) >= 2 and not st.iter.keywords and not any(isinstance(a, ast.Starred) for a in st.iter.args) \
+                and isinstance(st.target, (ast.Tuple, ast.List)) and len(st.target.elts) == len(st.iter.args) and not st.orelse:
+            # for a, b in itertools.product(A, B): BODY   is   for a in A: for b in B: BODY
+            inner_body = st.body
+            for tgt, src in reversed(list(zip(st.target.elts, st.iter.args))):
+                loop_node = ast.For(target=tgt, iter=src, body=inner_body, orelse=[])
+                ast.copy_location(loop_node, st)
+                ast.fix_missing_locations(loop_node)
+                inner_body = [loop_node]
+            return self.s_For(inner_body[0])
         if it is Interp._NO_ITER:
             it = self.eval(st.iter)
         if it == UNBOUND:
